@@ -433,6 +433,7 @@ impl<'c> VisitMut for Rw<'c> {
                 Stmt::Local(l) => process_attrs(self.cx, &mut l.attrs),
                 Stmt::Expr(e, _) => match expr_attrs_mut(e) { Some(a) => process_attrs(self.cx, a), None => true },
                 Stmt::Macro(m) => process_attrs(self.cx, &mut m.attrs),
+                Stmt::Item(Item::Use(_)) => { self.cx.rule("R1.attr"); false }
                 Stmt::Item(_) => { self.cx.refuse("item inside a function body", Span::call_site()); true }
             };
             if keep { kept.push(s); }
@@ -909,8 +910,9 @@ fn process_items(cx: &mut Ctx, items: Vec<Item>, impl_counter: &mut usize) {
                 if let Some(tn) = &trait_name {
                     let tn0 = tn.replace(' ', "");
                     let base = tn0.split('<').next().unwrap().to_string();
+                    let is_serde = ts(&im.trait_.as_ref().unwrap().1).starts_with("serde ::");
                     let dropped = DROPPED_IMPL_TRAITS.iter().any(|d| d.replace(' ', "") == tn0 || *d == base)
-                        || ts(&im.trait_.as_ref().unwrap().1).starts_with("serde ::");
+                        || (is_serde && cx.cur_file != "keypair");
                     let argon = ts(&im.self_ty).contains("argon2");
                     if dropped || argon {
                         cx.dropped.push(format!("{}: impl {} for {}", cx.cur_src, tn0, ts(&im.self_ty).replace(' ', "")));
@@ -927,11 +929,14 @@ fn process_items(cx: &mut Ctx, items: Vec<Item>, impl_counter: &mut usize) {
                 let hdr_trait = im.trait_.as_ref().map(|(_, p, _)| { let mut p = p.clone(); let mut rw = Rw { cx, in_closure: 0, loop_ord: 0, fn_key: String::new(), self_subst: None }; rw.visit_path_mut(&mut p); format!("{} for ", ts(&p)) }).unwrap_or_default();
                 let mut self_ty = (*im.self_ty).clone();
                 { let mut rw = Rw { cx, in_closure: 0, loop_ord: 0, fn_key: String::new(), self_subst: None }; rw.visit_type_mut(&mut self_ty); }
-                let is_ke = trait_name.as_ref().map(|t| t.starts_with("KeyExchange")).unwrap_or(false);
+                let is_serde_impl = im.trait_.as_ref().map(|t| ts(&t.1).starts_with("serde ::")).unwrap_or(false);
+                let is_ke = trait_name.as_ref().map(|t| t.starts_with("KeyExchange")).unwrap_or(false) || is_serde_impl;
                 let impl_generics = im.generics.clone();
                 let (ig, _, wc) = impl_generics.split_for_impl();
-                emit_marker(cx, "impl", &format!("{}::impl#{}", cx.cur_file, impl_counter), line, &format!(" trait={} from={}", trait_name.clone().unwrap_or_default().replace(' ', ""), is_from));
-                let _ = writeln!(cx.out, "impl {} {}{} {} {{", ts(&ig), hdr_trait, ts(&self_ty), ts(&wc));
+                if !is_serde_impl {
+                    emit_marker(cx, "impl", &format!("{}::impl#{}", cx.cur_file, impl_counter), line, &format!(" trait={} from={}", trait_name.clone().unwrap_or_default().replace(' ', ""), is_from));
+                    let _ = writeln!(cx.out, "impl {} {}{} {} {{", ts(&ig), hdr_trait, ts(&self_ty), ts(&wc));
+                }
                 let mut assoc: BTreeMap<String, Type> = BTreeMap::new();
                 let mut free_fns: Vec<String> = Vec::new();
                 if is_ke { for ii in im.items.iter() { if let ImplItem::Type(t) = ii { assoc.insert(t.ident.to_string(), t.ty.clone()); } } }
@@ -939,7 +944,13 @@ fn process_items(cx: &mut Ctx, items: Vec<Item>, impl_counter: &mut usize) {
                     if is_ke {
                         if let ImplItem::Fn(f) = ii {
                             if !process_attrs(cx, &mut f.attrs) { continue; }
-                            let key = format!("{}::{}::{}", cx.cur_file, self_name, f.sig.ident);
+                            let mut key = format!("{}::{}::{}", cx.cur_file, self_name, f.sig.ident);
+                            if is_serde_impl {
+                                // the serde impls of the key wrappers: emitted as free functions `serde_<method>_<Type>` (Verus cannot attach
+                                // `ensures` to a second trait method of the same name on one type); nothing in the crate calls them
+                                key = format!("{}[serde]", key);
+                                f.sig.ident = ident(&format!("serde_{}_{}", f.sig.ident, self_name));
+                            }
                             let l = f.sig.ident.span().start().line;
                             // prepend the impl's generic parameters, after the fn's own lifetimes
                             let mut params: Punctuated<GenericParam, Token![,]> = Punctuated::new();
@@ -948,19 +959,47 @@ fn process_items(cx: &mut Ctx, items: Vec<Item>, impl_counter: &mut usize) {
                             for p in f.sig.generics.params.iter() { if !matches!(p, GenericParam::Lifetime(_)) { params.push(p.clone()); } }
                             f.sig.generics.params = params;
                             if f.sig.generics.lt_token.is_none() { f.sig.generics.lt_token = Some(Default::default()); f.sig.generics.gt_token = Some(Default::default()); }
-                            struct SelfSubst<'m> { assoc: &'m BTreeMap<String, Type> }
+                            struct SelfSubst<'m> { assoc: &'m BTreeMap<String, Type>, self_ty: Type }
                             impl<'m> VisitMut for SelfSubst<'m> {
                                 fn visit_type_mut(&mut self, t: &mut Type) {
                                     if let Type::Path(tp) = t {
                                         if tp.qself.is_none() && tp.path.segments.len() == 2 && tp.path.segments[0].ident == "Self" {
                                             if let Some(r) = self.assoc.get(&tp.path.segments[1].ident.to_string()) { *t = r.clone(); return; }
                                         }
-                                        if tp.qself.is_none() && tp.path.is_ident("Self") { *t = parse_quote!(TripleDh); return; }
+                                        if tp.qself.is_none() && tp.path.is_ident("Self") { *t = self.self_ty.clone(); return; }
                                     }
                                     visit_mut::visit_type_mut(self, t);
                                 }
                             }
-                            let mut ss = SelfSubst { assoc: &assoc };
+                            let mut ss = SelfSubst { assoc: &assoc, self_ty: self_ty.clone() };
+                            // `Self(..)` / `Self { .. }` constructors in expressions
+                            if is_serde_impl {
+                                struct SelfExpr { name: Ident }
+                                impl VisitMut for SelfExpr {
+                                    fn visit_path_mut(&mut self, p: &mut Path) {
+                                        if p.segments.len() >= 1 && p.segments[0].ident == "Self" { p.segments[0].ident = self.name.clone(); }
+                                        visit_mut::visit_path_mut(self, p);
+                                    }
+                                }
+                                let mut se = SelfExpr { name: ident(&self_name) };
+                                se.visit_block_mut(&mut f.block);
+                                // a free function has no receiver: `&self` becomes the parameter `this: &Type`
+                                if let Some(FnArg::Receiver(rcv)) = f.sig.inputs.first().cloned() {
+                                    let ty = &self_ty;
+                                    let newarg: FnArg = if rcv.reference.is_some() {
+                                        if rcv.mutability.is_some() { parse_quote!(this: &mut #ty) } else { parse_quote!(this: &#ty) }
+                                    } else { parse_quote!(this: #ty) };
+                                    *f.sig.inputs.first_mut().unwrap() = newarg;
+                                    struct SelfToThis;
+                                    impl VisitMut for SelfToThis {
+                                        fn visit_expr_path_mut(&mut self, p: &mut ExprPath) {
+                                            if p.qself.is_none() && p.path.is_ident("self") { *p = parse_quote!(this); }
+                                        }
+                                    }
+                                    SelfToThis.visit_block_mut(&mut f.block);
+                                }
+                                // lifetimes of the impl (e.g. 'de) come first
+                            }
                             ss.visit_signature_mut(&mut f.sig);
                             ss.visit_block_mut(&mut f.block);
                             process_sig_and_body(cx, &key, &mut f.sig, &mut f.block, None);
@@ -975,6 +1014,7 @@ fn process_items(cx: &mut Ctx, items: Vec<Item>, impl_counter: &mut usize) {
                             if !process_attrs(cx, &mut f.attrs) { continue; }
                             let mut key = format!("{}::{}::{}", cx.cur_file, self_name, f.sig.ident);
                             if is_from { key = format!("{}[{}]", key, trait_name.clone().unwrap_or_default().replace(' ', "")); }
+                            if im.trait_.as_ref().map(|t| ts(&t.1).starts_with("serde ::")).unwrap_or(false) { key = format!("{}[serde]", key); }
                             let l = f.sig.ident.span().start().line;
                             if f.sig.unsafety.is_some() { cx.unsafe_seen += 1; cx.refuse("unsafe fn", f.sig.ident.span()); }
                             process_sig_and_body(cx, &key, &mut f.sig, &mut f.block, None);
@@ -992,7 +1032,7 @@ fn process_items(cx: &mut Ctx, items: Vec<Item>, impl_counter: &mut usize) {
                         other => cx.refuse(&format!("impl item {}", ts(other)), Span::call_site()),
                     }
                 }
-                let _ = writeln!(cx.out, "}}");
+                if !is_serde_impl { let _ = writeln!(cx.out, "}}"); }
                 for ff in free_fns { let _ = writeln!(cx.out, "{}", ff); }
             }
             Item::Fn(f) => {
